@@ -145,6 +145,8 @@ type c16Case struct {
 	Mask []int  `json:"mask"` // indices into the document's path list
 	Kind string `json:"kind"` // any | type | custom | reuse
 	Text string `json:"text"`
+	Alt  string `json:"alt,omitempty"`  // kind raw*: the second input, differing from Text only at Path
+	Path string `json:"path,omitempty"` // kind raw*: the masked path
 }
 
 func c16Docs(thorough bool) []*vfJ {
@@ -215,6 +217,76 @@ func c16Gen(c *vfCtx, emit func(c16Case)) {
 	}
 }
 
+// c16Raw: hand-written pairs of inputs (YAML features the document trees cannot render, JSON spellings with escapes) that differ
+// only at one masked path.
+func c16Raw(emit func(c16Case)) {
+	type pr struct{ api, a, b, path string }
+	for _, p := range []pr{
+		// the LAST key is a keep-chomping block scalar: its trailing newlines belong to the masked value
+		{"yaml", "a: 1\nlog: |+\n  line\n\n\n", "a: 1\nlog: |+\n  other\n", "$.log"},
+		{"yaml", "a: 1\nlog: |+\n  line\n", "a: 1\nlog: |+\n  x\n  y\n\n", "$.log"},
+		{"yaml", "l:\n  - |+\n    item\n\n", "l:\n  - x\n", "$.l[0]"},
+		// keys spelled with JSON escapes in the text
+		{"json", `{"q\u0026a":"one","z":1}`, `{"q\u0026a":"two","z":1}`, "q&a"},
+		{"json", `{"meta":{"caf\u00e9":"one"},"z":1}`, `{"meta":{"caf\u00e9":2},"z":1}`, "meta.café"},
+		{"sjson", `{"\u0024id":"one","id":"keep"}`, `{"\u0024id":"two","id":"keep"}`, "$id"},
+	} {
+		for _, kind := range []string{"rawany", "rawany-optional", "rawcustom", "rawcustom-optional"} {
+			emit(c16Case{API: p.api, Kind: kind, Text: p.a, Alt: p.b, Path: p.path, Doc: -1})
+		}
+	}
+}
+
+func c16RunRaw(c *vfCtx, cs c16Case) {
+	c.addSet("nontrivial", vfHashJSON(cs))
+	optional := strings.HasSuffix(cs.Kind, "-optional")
+	mk := func() (match.JSONMatcher, match.YAMLMatcher) {
+		if strings.HasPrefix(cs.Kind, "rawany") {
+			m := match.Any(cs.Path).ErrOnMissingPath(!optional)
+			return m, m
+		}
+		m := match.Custom(cs.Path, func(any) (any, error) { return "<custom>", nil }).ErrOnMissingPath(!optional)
+		return m, m
+	}
+	root := c.newWorld()
+	rec := func(sub, text string) (string, *vfT) {
+		dir := filepath.Join(root, sub)
+		os.MkdirAll(dir, 0o755)
+		vfResetState(false, "", true)
+		t := &vfT{name: "TestA"}
+		jm, ym := mk()
+		cfg := WithConfig(Dir(dir), Filename("f"))
+		switch cs.API {
+		case "json":
+			cfg.MatchJSON(t, text, jm)
+		case "sjson":
+			cfg.MatchStandaloneJSON(t, text, jm)
+		default:
+			cfg.MatchYAML(t, text, ym)
+		}
+		t.end()
+		c.count("transitions", 1)
+		return string(vfAllBytes(dir)), t
+	}
+	a, ta := rec("w1", cs.Text)
+	b, tb := rec("w2", cs.Alt)
+	if len(ta.errs)+len(tb.errs) > 0 {
+		c.violation("", fmt.Sprintf("recording the two inputs (masked path %s, %s): errors %v %v", cs.Path, cs.Kind, ta.errs, tb.errs), cs)
+		return
+	}
+	c.addSet("states", vfHash(a))
+	if a != b {
+		c.violation("", fmt.Sprintf("inputs differ only at the masked path %s (%s) but store different snapshots:\n%q\nvs\n%q", cs.Path, cs.Kind, vfClip(a), vfClip(b)), cs)
+		return
+	}
+	// each passes against the other's snapshot
+	_, t3 := rec("w1", cs.Alt)
+	if o := t3.outcome(vfMark{}); o != "pass" {
+		c.violation("", fmt.Sprintf("the second input does not pass against the first one's snapshot (masked path %s): %s %v", cs.Path, o, t3.errs), cs)
+	}
+	c.outcome("raw-masked-variant:pass")
+}
+
 func c16Render(api string, d *vfJ) string {
 	switch api {
 	case "yaml-flow":
@@ -250,6 +322,10 @@ func c16AnyAlts(v *vfJ) []*vfJ {
 }
 
 func c16Run(c *vfCtx, cs c16Case) {
+	if strings.HasPrefix(cs.Kind, "raw") {
+		c16RunRaw(c, cs)
+		return
+	}
 	docs := c16Docs(c.thorough())
 	if cs.Doc >= len(docs) || docs[cs.Doc].render(0, 0) != cs.Text {
 		c.harnessErr("C16: document %d differs from the recorded one (tier mismatch on replay?)", cs.Doc)
@@ -496,5 +572,6 @@ func init() {
 		c.rule = "documents x every set of <=2 (non-nested) masked paths x {Any, Type, Custom, one reused Any value} x {MatchJSON, MatchStandaloneJSON, MatchYAML flow and block}: " +
 			"every masked value replaced by each alternative the matcher accepts (other scalar/length/kind), every unmasked leaf replaced by different values incl. numbers equal as float64 but different as text"
 		c16Gen(c, emit)
+		c16Raw(emit)
 	}, c16Run)
 }
